@@ -34,14 +34,16 @@ func (h *RTPInfo) Unmarshal(v base.HeaderValue) error {
 		// remove leading spaces
 		part = strings.TrimLeft(part, " ")
 
-		kvs, err := keyValParse(part, ';')
+		keys, kvs, err := keyValParseOrdered(part, ';')
 		if err != nil {
 			return err
 		}
 
 		urlReceived := false
 
-		for k, v := range kvs {
+		for _, k := range keys {
+			v := kvs[k]
+
 			switch k {
 			case "url":
 				e.URL = v
